@@ -40,7 +40,7 @@ def gen_layout(rng, big=False):
     cwd = rng.choice(roots + ["/w/sub"] if "/w" in roots else roots)
     sps = [r for r in roots[1:] if rng.random() < 0.7 and (r != cwd or rng.random() < 0.3)]
     rng.shuffle(sps)
-    pkgs = [[], ["a"], ["a", "b"], ["x"], ["bloch", "lang"], ["bloch", "util"]]
+    pkgs = [[], ["a"], ["a", "b"], ["x"], ["bloch", "lang"], ["bloch", "util"], ["blochlab", "util"], ["blochx"], ["blo", "ch"]]
     nmod = rng.randrange(2, 9 if big else 7)
     mods = []          # dicts: path, pkg(decl), imports, classes, functions
     used = set()
